@@ -437,10 +437,13 @@ def run(ctx):
             bad_t[j]["r"] = 9
             break
     st_traces = {"trace-select-result-non-member": bad_t}
-    bad_b = [dict(e) for e in t]
-    if bad_b[-1]["e"] == "Burst" and len(set(bad_b[-1]["sel"])) >= 2:
-        bad_b[-1]["sel"] = [bad_b[-1]["sel"][0]] * len(bad_b[-1]["sel"])
-        st_traces["trace-burst-single-host"] = bad_b
+    for key, i, t2 in all_runs:
+        if key[0] == "rr" and not key[1] and t2 and t2[-1]["e"] == "Burst" and len(set(t2[-1]["sel"])) >= 2 \
+                and all(not e.get("p") for e in t2):
+            bad_b = [dict(e) for e in t2]
+            bad_b[-1]["sel"] = [bad_b[-1]["sel"][0]] * len(bad_b[-1]["sel"])     # all selections of the burst on one host
+            st_traces["trace-burst-single-host"] = bad_b
+            break
 
     def st_val(label):
         with _tlc_slots:
